@@ -56,6 +56,16 @@ fn from_bits(c: &Bitstring) -> Vec<u8> {
 fn is_length_err<E: std::fmt::Debug>(e: &E) -> XoObs {
     let s = format!("{e:?}");
     if s.contains("DifferentGenomeLength") {
+        // the error names the two lengths (in either order)
+        let (l1, l2) = PARENT_LENS.with(|p| p.get());
+        let nums: Vec<usize> = s.split(|c: char| !c.is_ascii_digit()).filter(|t| !t.is_empty()).filter_map(|t| t.parse().ok()).collect();
+        let mut got = nums.clone();
+        got.sort();
+        let mut want = vec![l1, l2];
+        want.sort();
+        if l1 != l2 && got != want {
+            return XoObs::ErrOther(format!("the length error {s} does not name the parents' lengths {l1} and {l2}"));
+        }
         XoObs::ErrLength
     } else {
         XoObs::ErrOther(s)
@@ -82,6 +92,7 @@ fn prime(two_point: bool, l: usize) {
 
 pub fn recombine(two_point: bool, f: Flavour, l1: usize, l2: usize, env: &mut Env, alpha: Alphabet) -> XoObs {
     prime(two_point, l1);
+    PARENT_LENS.with(|p| p.set((l1, l2)));
     let mut rng = ChoiceRng::new(env, alpha);
     macro_rules! go {
         ($op:expr) => {{
@@ -438,6 +449,27 @@ pub fn long_lengths(quick: bool) -> Vec<usize> {
     }
 }
 
+thread_local! {
+    /// Debug text of the error the last exchange primitive returned
+    static LAST_ERR: std::cell::RefCell<String> = const { std::cell::RefCell::new(String::new()) };
+    /// lengths of the parents of the recombination under way
+    static PARENT_LENS: std::cell::Cell<(usize, usize)> = const { std::cell::Cell::new((0, 0)) };
+}
+fn note_err<T, E: std::fmt::Debug>(r: Result<T, E>) -> bool {
+    match r {
+        Ok(_) => true,
+        Err(e) => {
+            LAST_ERR.with(|l| *l.borrow_mut() = format!("{e:?}"));
+            false
+        }
+    }
+}
+/// the error of an out-of-range exchange names what was asked for
+fn names_request(what: &str) -> Option<(&'static str, String)> {
+    let e = LAST_ERR.with(|l| l.borrow().clone());
+    (!e.contains(what)).then(|| ("error-details", format!("the error {e} does not name the requested {what}")))
+}
+
 /// E3: the exchange primitives of Bitstring
 fn primitives(run: &mut Run) -> u64 {
     let mut n = 0u64;
@@ -448,7 +480,7 @@ fn primitives(run: &mut Run) -> u64 {
             for i in 0..l1.max(l2) + 3 {
                 n += 1;
                 let (mut a, mut b) = (a0.clone(), b0.clone());
-                let r = mcx::guarded(|| a.crossover_gene(&mut b, i).is_ok());
+                let r = mcx::guarded(|| note_err(a.crossover_gene(&mut b, i)));
                 let in_range = i < l1 && i < l2;
                 let what = match r {
                     Err(p) => Some(("gene/panic", format!("panicked: {p}"))),
@@ -459,7 +491,7 @@ fn primitives(run: &mut Run) -> u64 {
                         std::mem::swap(&mut ea.bits[i], &mut eb.bits[i]);
                         (a != ea || b != eb).then(|| ("gene/effect", format!("genomes afterwards {a} / {b}, expected {ea} / {eb}")))
                     }
-                    Ok(false) => (a != a0 || b != b0).then(|| ("gene/changed-on-error", format!("genomes changed although an error was returned: {a} / {b}"))),
+                    Ok(false) => (a != a0 || b != b0).then(|| ("gene/changed-on-error", format!("genomes changed although an error was returned: {a} / {b}"))).or_else(|| names_request(&format!("index: {i},")).map(|(k, w)| (if k == "error-details" { "gene/error-details" } else { k }, w))),
                 };
                 if let Some((k, w)) = what {
                     run.violation(format!("crossover_{k}"), format!("crossover_gene({i}) on lengths ({l1},{l2}): {w}"), json!({"check":"C10","scenario":"gene","l1":l1,"l2":l2,"i":i}));
@@ -469,7 +501,7 @@ fn primitives(run: &mut Run) -> u64 {
                 for e in s..=l1.max(l2) + 2 {
                     n += 1;
                     let (mut a, mut b) = (a0.clone(), b0.clone());
-                    let r = mcx::guarded(|| a.crossover_segment(&mut b, s..e).is_ok());
+                    let r = mcx::guarded(|| note_err(a.crossover_segment(&mut b, s..e)));
                     let in_range = e <= l1 && e <= l2;
                     let what = match r {
                         Err(p) => Some(("segment/out-of-range/panic", format!("panicked: {p}"))),
@@ -482,7 +514,7 @@ fn primitives(run: &mut Run) -> u64 {
                             }
                             (a != ea || b != eb).then(|| ("segment/effect", format!("genomes afterwards {a} / {b}, expected {ea} / {eb}")))
                         }
-                        Ok(false) => (a != a0 || b != b0).then(|| ("segment/changed-on-error", format!("genomes changed although an error was returned: {a} / {b}"))),
+                        Ok(false) => (a != a0 || b != b0).then(|| ("segment/changed-on-error", format!("genomes changed although an error was returned: {a} / {b}"))).or_else(|| names_request(&format!("range: {s}..{e},")).map(|(_, w)| ("segment/error-details", w))),
                     };
                     if let Some((k, w)) = what {
                         run.violation(format!("crossover_{k}"), format!("crossover_segment({s}..{e}) on lengths ({l1},{l2}): {w}"), json!({"check":"C10","scenario":"segment","l1":l1,"l2":l2,"s":s,"e":e}));
@@ -519,7 +551,7 @@ fn primitives_long(run: &mut Run) -> u64 {
                 let e = s + d;
                 n += 1;
                 let (mut a, mut b) = (a0.clone(), b0.clone());
-                let r = mcx::guarded(|| a.crossover_segment(&mut b, s..e).is_ok());
+                let r = mcx::guarded(|| note_err(a.crossover_segment(&mut b, s..e)));
                 let in_range = e <= l1 && e <= l2;
                 let what = match r {
                     Err(p) => Some(("segment/long/panic", format!("panicked: {p}"))),
@@ -533,7 +565,7 @@ fn primitives_long(run: &mut Run) -> u64 {
                             ("segment/long/effect", format!("sizes afterwards ({}, {}), expected ({l1}, {l2}); first wrong gene of the first genome at {first:?}", a.bits.len(), b.bits.len()))
                         })
                     }
-                    Ok(false) => (a != a0 || b != b0).then(|| ("segment/long/changed-on-error", "genomes changed although an error was returned".to_string())),
+                    Ok(false) => (a != a0 || b != b0).then(|| ("segment/long/changed-on-error", "genomes changed although an error was returned".to_string())).or_else(|| names_request(&format!("range: {s}..{e},")).map(|(_, w)| ("segment/long/error-details", w))),
                 };
                 if let Some((k, w)) = what {
                     if viols.len() < 4 {
@@ -545,7 +577,7 @@ fn primitives_long(run: &mut Run) -> u64 {
         for i in [0usize, 1, 999, 1000, 1001, lo - 1, lo, lo + 1, hi - 1, hi, hi + 1] {
             n += 1;
             let (mut a, mut b) = (a0.clone(), b0.clone());
-            let r = mcx::guarded(|| a.crossover_gene(&mut b, i).is_ok());
+            let r = mcx::guarded(|| note_err(a.crossover_gene(&mut b, i)));
             let in_range = i < l1 && i < l2;
             let what = match r {
                 Err(p) => Some(("gene/long/panic", format!("panicked: {p}"))),
@@ -556,7 +588,7 @@ fn primitives_long(run: &mut Run) -> u64 {
                     std::mem::swap(&mut ea.bits[i], &mut eb.bits[i]);
                     (a != ea || b != eb).then(|| ("gene/long/effect", "genomes afterwards differ from the addressed swap".to_string()))
                 }
-                Ok(false) => (a != a0 || b != b0).then(|| ("gene/long/changed-on-error", "genomes changed although an error was returned".to_string())),
+                Ok(false) => (a != a0 || b != b0).then(|| ("gene/long/changed-on-error", "genomes changed although an error was returned".to_string())).or_else(|| names_request(&format!("index: {i},")).map(|(_, w)| ("gene/long/error-details", w))),
             };
             if let Some((k, w)) = what {
                 viols.push((format!("crossover_{k}"), format!("crossover_gene({i}) on lengths ({l1},{l2}): {w}"), json!({"check":"C10","scenario":"gene","l1":l1,"l2":l2,"i":i})));
